@@ -835,6 +835,11 @@ class Parser:
         elif self.current().type in (TokenType.NEWLINE, TokenType.INDENT, TokenType.LIST_START):
             # No explicit name, use section_id as the name (e.g., §CONTEXT:: → name is "CONTEXT")
             section_name = section_id
+        elif self.current().type == TokenType.NUMBER and str(self.current().value) == section_id:
+            # A numbered section without a name is emitted with the id repeated as its name
+            # (§2:: is written §2::2): read that spelling back as what it was written from.
+            section_name = section_id
+            self.advance()
         else:
             raise ParserError(
                 f"Expected section name or newline after §{section_id}::, got {self.current().type}",
